@@ -81,6 +81,14 @@ func sorted(p []int) []int {
 	return q
 }
 
+// foreign: sequences iterated through an index built over another sequence.
+var foreign = []string{
+	"ttgacagattacaggatcc",
+	"acgtnacgt-aaccNggtt*acgtacgt",
+	"ACGTacgtTTGACAgattaca",
+	"acgtacgt\x80acgtacgt\xffacgtacg\x00tacgtac",
+}
+
 func checkIndex(c *enum.Ctx, k kase) {
 	fail := func(class, f string, a ...interface{}) { c.Fail(class, k, "%s", fmt.Sprintf(f, a...)) }
 	var al alphabet.Alphabet = alphabet.DNA
@@ -138,6 +146,27 @@ func checkIndex(c *enum.Ctx, k kase) {
 			if fmt.Sprint(got) != fmt.Sprint(want) {
 				fail("ForEachKmerOf/windows", "range [%d,%d) of %q (k=%d): callbacks %v, valid windows %v", start, end, k.Seq, k.K, got, want)
 			}
+		}
+	}
+	// the same index iterating OTHER sequences (as the PALS filter does with its query), among them
+	// sequences with non-alphabet letters of every kind although the indexed one may have none
+	for _, other := range foreign {
+		if k.RNA {
+			other = strings.NewReplacer("t", "u", "T", "U").Replace(other)
+		}
+		o := linear.NewSeq("o", alphabet.BytesToLetters([]byte(other)), al)
+		ow := windows(other, k.K, k.RNA)
+		var got, want [][2]int
+		err := ki.ForEachKmerOf(o, 0, len(other), func(_ *kmerindex.Index, pos, kmer int) { got = append(got, [2]int{pos, kmer}) })
+		for p := 0; p+k.K <= len(other); p++ {
+			if w, ok := ow[p]; ok {
+				want = append(want, [2]int{p, w})
+			}
+		}
+		if err != nil {
+			fail("ForEachKmerOf/foreign/error", "index of %q iterating %q: %v", k.Seq, other, err)
+		} else if fmt.Sprint(got) != fmt.Sprint(want) {
+			fail("ForEachKmerOf/foreign/windows", "index of %q iterating %q (k=%d): callbacks %v, valid windows %v", k.Seq, other, k.K, got, want)
 		}
 	}
 	ki.Build()
